@@ -55,6 +55,7 @@ def _report(ctx, sig, detail):
 ALL_OPS = ["VaddV", "VsubV", "VmulV", "VdivV", "VaddS", "VsubS", "VmulS", "VdivS", "VdotV", "MdotV", "VdotM",
            "MaddM", "MsubM", "MmulM", "MdivM", "MaddS", "MsubS", "MmulS", "MdivS", "MdotM", "Outer",
            "Set", "Equals", "SetIdentity", "Reset", "As", "New"]
+# plus op "Ctor": the generic (element-type driven) constructors / converters of vector.go, matrix.go
 
 
 # ------------------------------------------------------------------ model -> code
@@ -202,6 +203,11 @@ def vacuity(summary, mode):
     missing = [o for o in ALL_OPS if summary.get("by_op", {}).get(o, 0) == 0]
     if missing:
         raise vlib.Infra("vacuous enumeration: operations without a replayed case: %s" % missing)
+    ctors = [c + m + k for c in ("Null", "As") for m in ("Dense", "Sparse") for k in ("Vector", "Matrix", "MagicVector", "MagicMatrix")] + \
+            ["DenseIdentityMatrix", "SparseIdentityMatrix", "DenseMagicIdentityMatrix", "SparseMagicIdentityMatrix"]
+    missing = [c for c in ctors if summary.get("by_op", {}).get("Ctor:" + c, 0) == 0]
+    if missing:
+        raise vlib.Infra("vacuous enumeration: generic constructors never exercised: %s" % missing)
     rk = summary.get("recv_kinds", {})
     for need in ("d/zeros", "d/nz", "s/zeros", "z/zeros", "s/nz", "s/mixo", "z/mixo"):
         if rk.get(need, 0) == 0:
